@@ -33,10 +33,10 @@ def case_term(c):
     out = ['(Ret %s)' % outs, '(Fail %s)' % outs, 'Panic'][c['outkind']]
     mws = C.coq_list(['MwPass' if w == 0 else '(MwAppend %s)' % C.coq_N(50 + i) for i, w in enumerate(c['mws'])])
     evs = [event_term(e) for e in c['trace']]
-    return '(C02 %s %s %s (CR %s %s) %s %s)' % (PK[c['pubkind']], PB[c['pub']], mws, PRE[c['pre']], out, C.coq_list(evs), ST[c['final']])
+    return '(C02 %s %s %s %s (CR %s %s) %s %s)' % (ST[c.get('arrive', 0)], PK[c['pubkind']], PB[c['pub']], mws, PRE[c['pre']], out, C.coq_list(evs), ST[c['final']])
 
 def describe(c):
-    return dict(publisher=PK[c['pubkind']], publisher_behaviour=PB[c['pub']], middlewares=c['mws'], handler_pre_settle=PRE[c['pre']],
+    return dict(publisher=PK[c['pubkind']], publisher_behaviour=PB[c['pub']], middlewares=c['mws'], handler_pre_settle=PRE[c['pre']], settled_by_subscriber_before_delivery=ST[c.get('arrive', 0)],
                 handler_outcome=['returns', 'fails with', 'panics'][c['outkind']], handler_outputs=c['outs'], value=(['string', 'error', 'nil', '-'][c['panicv']] if c['outkind'] == 2 else ['plain error', 'wrapped context.Canceled, message ctx alive', 'context.Canceled, message ctx cancelled', 'context.DeadlineExceeded, message ctx expired'][c['panicv']]),
                 in_flight=c['flight'], observed_trace=c['trace'], final=ST[c['final']])
 
@@ -49,10 +49,12 @@ def run(ctx):
         data, _ = C.run_harness(binary, ['c02', '-seed', str(seed + rnd)], pid, 'c02_%d.json' % rnd)
         good = []
         for c in data:
+            c['trace'] = c.get('trace') or []
             res.evaluations += 1
             res.count('publisher=%s' % PK[c['pubkind']])
             res.count('outcome=%s' % ['ret', 'fail', 'panic'][c['outkind']])
             res.count('in_flight=%d' % c['flight'])
+            res.count('arrives=%s' % ST[c.get('arrive', 0)])
             if any(e[0] == 'not-run' for e in c['trace']):
                 res.evaluations -= 1
                 continue
@@ -60,12 +62,15 @@ def run(ctx):
             if bad:
                 res.violations.append(dict(signature='C02/' + bad[0][0], what='unexpected observation %s (e.g. Publish called with an empty batch, message not taken)' % bad[0][0], case=describe(c)))
                 continue
+            if not any(e[0] == 'call' for e in c['trace']):
+                res.violations.append(dict(signature='C02/chain-not-invoked', what='the Router took the message from the subscriber but never invoked the handler chain', case=describe(c)))
+                continue
             if c['final'] == 0:
                 res.violations.append(dict(signature='C02/unsettled', what='message was not settled within 5 s', case=describe(c)))
                 continue
             good.append(c)
             if c['pre'] or c['outkind'] or (c['outs'] or c['mws']):
-                res.nontrivial.add((c['pubkind'], tuple(c['mws']), c['pre'], c['outkind'], tuple(c['outs'] or []), c['pub'], c['panicv']))
+                res.nontrivial.add((c.get('arrive', 0), c['pubkind'], tuple(c['mws']), c['pre'], c['outkind'], tuple(c['outs'] or []), c['pub'], c['panicv']))
         for part, chunk in enumerate(C.chunks(good, 600)):
             r = C.coq_eval(pid, 'cases_%d_%d' % (rnd, part), HEADER + 'Definition cases : list c02_case := %s.\n' % C.coq_list([case_term(c) for c in chunk]),
                            [('R_mis', 'c02_mismatches cases'), ('R_vio', 'c02_violations cases')])
